@@ -9,7 +9,28 @@ TOPICS = ["a", "a/b", "b", "a/b/c", "c"]
 FILTERS = ["a", "a/b", "a/+", "a/#", "+", "#", "b", "+/b", "a/b/c", "+/+"]
 
 # events written by the harness itself: a rejection there is a harness/modelling problem, never a violation
-HARNESS_EVENTS = {"config", "popen", "psend", "pclose", "cut", "pnote", "peof", "newconn", "bclose.call", "bclose.ret", "disconnected"}
+HARNESS_EVENTS = {"config", "popen", "psend", "pclose", "cut", "pnote", "peof", "newconn", "bclose.call", "bclose.ret", "disconnected",
+                  "api.call", "newclient", "gate.hold", "gate.release", "dial", "svc.call"}
+
+KINDS = {
+    "broker": dict(cmd="broker", module="BrokerTrace", cfg="BrokerTrace.cfg"),
+    "client": dict(cmd="client", module="ClientTrace", cfg="ClientTrace.cfg"),
+    "service": dict(cmd="service", module="ServiceTrace", cfg="ServiceTrace.cfg"),
+}
+
+
+def fallback_client(ev):
+    e, t = ev.get("ev"), ev.get("pkt", {}).get("t")
+    if e in ("csend", "csend_err", "csend_buf"):
+        return "C10" if t in ("PUBACK", "PUBREC", "PUBCOMP") else "C09"
+    if e in ("crecv", "cb.call"):
+        return "C10"
+    if e.startswith("sess."):
+        return "C10" if ev.get("d") == "in" else "C09"
+    if e in ("svc.ret", "svc.online", "svc.offline", "svc.error", "svc.msg"):
+        return "C17"
+    return "C09"
+
 
 # rejected gomqtt-originated event without a tagged guard -> property by event kind
 def fallback(ev):
@@ -102,7 +123,7 @@ def msg(topic, q, m, ret=False, empty=False):
 
 # ---------------------------------------------------------------- running
 
-def run_scripts(run, scripts, tag, slow=1, timeout=900):
+def run_scripts(run, scripts, tag, slow=1, timeout=900, kind="broker"):
     """drive the scripts on the real broker (sharded), returns path of the concatenated trace file + crash info"""
     wd = run.wd
     drive = lib.build_harness()
@@ -114,7 +135,7 @@ def run_scripts(run, scripts, tag, slow=1, timeout=900):
     procs = []
     for i in range(shards):
         out = os.path.join(wd, "%s.traces.%d.ndjson" % (tag, i))
-        p = subprocess.Popen([drive, "broker", "-scripts", sfile, "-out", out, "-shard", str(i), "-shards", str(shards), "-slow", str(slow)],
+        p = subprocess.Popen([drive, KINDS[kind]["cmd"], "-scripts", sfile, "-out", out, "-shard", str(i), "-shards", str(shards), "-slow", str(slow)],
                              stdout=subprocess.PIPE, stderr=subprocess.PIPE, text=True, env=lib.GOENV)
         procs.append((p, out))
     crashes = []
@@ -138,7 +159,7 @@ def run_scripts(run, scripts, tag, slow=1, timeout=900):
     return tfile, crashes
 
 
-def validate(run, tfile, tag, timeout=1800):
+def validate(run, tfile, tag, timeout=1800, kind="broker", dev=()):
     """one batched TLC run over all traces; returns dict tr -> result"""
     events = {}
     order = []
@@ -157,12 +178,13 @@ def validate(run, tfile, tag, timeout=1800):
     # Conns / SKeys are written out explicitly: a `<-` substitution is re-evaluated by TLC at every use (measured 30 s vs 1.8 s)
     conns = sorted({e["c"] for e in events.values() if "c" in e})
     skeys = sorted({e["s"] for e in events.values() if e["ev"] == "setup.ret" and e.get("s")})
-    cfg = open(os.path.join(lib.SPEC, "BrokerTrace.cfg")).read()
+    cfg = open(os.path.join(lib.SPEC, KINDS[kind]["cfg"])).read()
+    cfg = cfg.replace("Dev = {}", "Dev = {%s}" % ", ".join('"%s"' % d for d in dev))
     cfg = cfg.replace("Conns <- TraceConns", "Conns = {%s}" % ", ".join('"%s"' % c for c in conns))
     cfg = cfg.replace("SKeys <- TraceSKeys", "SKeys = {%s}" % ", ".join('"%s"' % k for k in skeys))
-    r = lib.tlc(run.wd, "BrokerTrace", cfg, workers=1, deque=True, timeout=timeout, defs={"TRACE": tfile}, extra=["-nowarning"])
+    r = lib.tlc(run.wd, KINDS[kind]["module"], cfg, workers=1, deque=True, timeout=timeout, defs={"TRACE": tfile}, extra=["-nowarning"])
     if not r.lines("HW"):
-        raise lib.Infra("BrokerTrace run gave no verdict:\n" + r.out[-3000:])
+        raise lib.Infra("%s run gave no verdict:\n" % KINDS[kind]["module"] + r.out[-3000:])
     accepted = {int(x) for x in r.lines("ACCEPTED")}
     hw = {}
     for h in r.lines("HW"):
@@ -190,10 +212,10 @@ def trace_of(events, tr):
     return [e for e in events.values() if e["tr"] == tr]
 
 
-def check_family(run, prop, scripts, tag, also=()):
+def check_family(run, prop, scripts, tag, also=(), kind="broker", known=None):
     """Drive + validate the scripts; re-drive rejected ones slowly; report violations tagged with `prop`.
     Returns (accepted_count, rejected list)."""
-    tfile, crashes = run_scripts(run, scripts, tag)
+    tfile, crashes = run_scripts(run, scripts, tag, kind=kind)
     byid = {s["id"]: s for s in scripts}
     for c in crashes:
         s = byid.get(c["script"])
@@ -202,16 +224,27 @@ def check_family(run, prop, scripts, tag, also=()):
                           files={"script.json": s or {}, "stderr.txt": c["stderr"]})
         else:
             run.note("driver %s in scenario %s (reported by the C14 check)" % (c["kind"], c["script"]))
-    res, events, r = validate(run, tfile, tag)
+    res, events, r = validate(run, tfile, tag, kind=kind)
     rejected = [tr for tr, x in res.items() if not x["ok"]]
     final = dict(res)
     if rejected:
         # verdicts only from reproducible real-code behaviour: run the rejected scenarios again, slowly
         again = [byid[tr] for tr in rejected if tr in byid]
-        t2, cr2 = run_scripts(run, again, tag + ".slow", slow=6)
-        res2, events2, r2 = validate(run, t2, tag + ".slow")
+        t2, cr2 = run_scripts(run, again, tag + ".slow", slow=6, kind=kind)
+        res2, events2, r2 = validate(run, t2, tag + ".slow", kind=kind)
+        # known findings: a trace rejected by the strict specification but accepted with exactly the listed deviation enabled
+        still = [tr for tr in rejected if tr in res2 and not res2[tr]["ok"]]
+        if still and known:
+            for key, text in known.items():
+                res3, _, _ = validate(run, t2, tag + ".dev", kind=kind, dev=(key,))
+                for tr in still:
+                    if tr in res3 and res3[tr]["ok"]:
+                        run.known(key, text)
+                        res2[tr] = {"ok": True, "known": key}
         for tr in rejected:
-            if tr in res2 and res2[tr]["ok"]:
+            if tr in res2 and res2[tr].get("known"):
+                final[tr] = {"ok": True, "known": res2[tr]["known"]}
+            elif tr in res2 and res2[tr]["ok"]:
                 run.note("scenario %d rejected at %s on the first run but accepted when re-driven slowly (timing of the driver, not reported)"
                          % (tr, res[tr]["event"].get("ev")))
                 final[tr] = {"ok": True, "flaky": True}
@@ -232,7 +265,7 @@ def check_family(run, prop, scripts, tag, also=()):
             if ev.get("ev") in HARNESS_EVENTS:
                 raise lib.Infra("trace %d rejected at harness event %s (position %d): modelling/harness error, not a verdict about gomqtt\n%s"
                                 % (tr, ev.get("ev"), x["pos"], json.dumps(ev)[:400]))
-            fb = fallback(ev)
+            fb = fallback(ev) if kind == "broker" else fallback_client(ev)
             tags = {fb} if fb else set()
             names = ["(no action of the specification produces this event: %s)" % ev.get("ev")]
         x["tags"], x["names"] = sorted(tags), names
